@@ -1,5 +1,6 @@
 import Chess.Lemmas.LegalJoin
 import Chess.Lemmas.Status
+import Chess.Lemmas.LegalMoves
 /-! # C04 — terminal flag and status classification -/
 namespace Chess
 open Board Spec
@@ -26,5 +27,22 @@ theorem C04_terminal_list (b : Board) (hv : b.Valid K) : b.term = true ↔ b.get
     | true =>
       have := (hv.mem_getLegalMoves_iff m).2 hm
       rw [h] at this; exact absurd this (by simp)
+
+/-- the flag equals the emptiness of the specification's own enumeration of legal moves -/
+theorem C04_terminal_spec (b : Board) (hv : b.Valid K) : b.term = (Spec.legalMoves b.absPos).isEmpty := by
+  cases he : (Spec.legalMoves b.absPos).isEmpty with
+  | true => exact (C04_terminal b hv).2 ((legalMoves_isEmpty_iff b.absPos).1 he)
+  | false =>
+    cases ht : b.term with
+    | false => rfl
+    | true =>
+      have := (legalMoves_isEmpty_iff b.absPos).2 ((C04_terminal b hv).1 ht)
+      rw [he] at this; exact Bool.noConfusion this
+
+/-- C04: the status is checkmate of the side to move iff terminal and in check, stalemate iff terminal and not in check,
+otherwise insufficient material iff each side has only a king or a king plus a single bishop or knight, otherwise fifty-move
+iff the half-move clock is at least 100, otherwise ongoing — `Spec.status` spells exactly that out -/
+theorem C04_status (b : Board) (hv : b.Valid K) : statusToSpec b.getStatus = Spec.status b.absPos :=
+  getStatus_spec hv (C04_terminal_spec b hv)
 
 end Chess
